@@ -234,4 +234,22 @@ Proof.
       * intro Hx. split; [apply Hx; left; reflexivity|]. intros l' Hl. apply Hx. right. exact Hl.
 Qed.
 
+(* ORDER RETAINED ON IDENTICAL OPERANDS (the point of assume_unique=True in index_many_set): when every
+   input carries the same labels in the same order, the aligned axis is that list, untouched -- no sort *)
+Lemma set_1d_same u l : M_set_1d leqb lleb u l l = l.
+Proof.
+  unfold M_set_1d. destruct l as [|x l]; [destruct u; reflexivity|].
+  cbn [is_nil orb andb]. rewrite !andb_false_r. cbn [andb].
+  rewrite Nat.eqb_refl. assert (E : labels_eqb (x :: l) (x :: l) = true) by (apply labels_eqb_eq; reflexivity).
+  rewrite E. reflexivity.
+Qed.
+
+Theorem identical_labels_keep_order (union : bool) (l : list L) (n : nat) :
+  M_index_many_set leqb lleb union (l :: repeat l n) = l.
+Proof.
+  unfold M_index_many_set. induction n as [|n IH]; [reflexivity|].
+  cbn [repeat M_set_fold]. rewrite set_1d_same.
+  destruct (negb union && is_nil l) eqn:E; [reflexivity|exact IH].
+Qed.
+
 End Align.
